@@ -6,6 +6,7 @@ import (
 	"path/filepath"
 	"sort"
 	"strings"
+	"sync"
 	"time"
 
 	"github.com/gopacket/gopacket"
@@ -28,6 +29,8 @@ type (
 		indexDir         string
 		snapshotDir      string
 		snapshotFilename string
+		// protects knownPcaps and packetCount, they are read by the manager while FromPcap runs
+		mutex sync.Mutex
 	}
 )
 
@@ -552,10 +555,13 @@ outer:
 		b.snapshotFilename = filepath.Base(newSnapshotFilename)
 	}
 
-	b.knownPcaps = append(b.knownPcaps, newPcapInfos...)
+	b.mutex.Lock()
+	// don't append in place, KnownPcaps hands out the old slice
+	b.knownPcaps = append(append([]*pcapmetadata.PcapInfo(nil), b.knownPcaps...), newPcapInfos...)
 	for _, pi := range newPcapInfos {
 		b.packetCount += pi.PacketCount
 	}
+	b.mutex.Unlock()
 	b.snapshots = newSnapshots
 
 	outputFiles := []string{}
@@ -567,9 +573,13 @@ outer:
 }
 
 func (b *Builder) PacketCount() uint {
+	b.mutex.Lock()
+	defer b.mutex.Unlock()
 	return b.packetCount
 }
 
 func (b *Builder) KnownPcaps() []*pcapmetadata.PcapInfo {
+	b.mutex.Lock()
+	defer b.mutex.Unlock()
 	return b.knownPcaps
 }
